@@ -119,7 +119,7 @@ def judge(t):
             for (m, ast2, _mi) in b['mods']:
                 if m == c.mib:
                     last_ast = ast2
-        if c.kw.get('ast') is not ast and not multi:
+        if c.kw.get('ast') is not ast and c.kw.get('ast') != ast and not multi:
             V('C08.3-source-order', 'code for %s was generated from a tree that did not come from the first source supplying it (source %d)' % (c.mib, a['src']), what='wrong-tree')
     if any(sp.get('imports') and n in sp['imports'] for n, sp in scn['modules'].items()):
         t.world.probe('self-import')
